@@ -162,7 +162,7 @@ class Listeners:
         if not spec.is_bounded:
             for listener in self.items:
                 func = getattr(listener.obj, spec.attr_name, None)
-                if func is not None and func.__func__ is spec.func:
+                if getattr(func, "__func__", None) is spec.func:
                     yield listener.build_key(spec.attr_name), partial(callable_method, func)
                     return
 
